@@ -165,13 +165,20 @@ struct Albers {
     if (same) phi0 = atan2q(L1.s, L1.c);
     else {
       Q lo = atan2q(L1.s, L1.c), hi = atan2q(L2.s, L2.c); if (lo > hi) { Q t_ = lo; lo = hi; hi = t_; }
-      auto g = [&](Q ph) { Lat L = latr(ph); return (C0s - n0s * E.q(L.s)) * L.s - n0s * sq(E.m(L.s, L.c)); };
-      Q glo = g(lo), ghi = g(hi);
-      for (int i = 0; i < 130; ++i) { Q mid = (lo + hi) / 2, gm = g(mid); if ((gm > 0) == (ghi > 0)) { hi = mid; ghi = gm; } else { lo = mid; glo = gm; } }
-      phi0 = (lo + hi) / 2;
+      auto g = [&](Q ph) { Lat L = latr(ph); return (C0s - n0s * E.q(L.s)) * L.s - n0s * sq(E.m(L.s, L.c)); };    // sign of d(k^2)/d(phi)
+      // one parallel at a pole: g vanishes identically there (rho = 0, m = 0); use a point just inside to decide whether there is an interior minimum
+      const Q din = (hi - lo) * ldexpq(Q(1), -20);      // g = O(colat^4) near the pole: far enough inside for its sign to be above round-off
+      Q a_ = lo, b_ = hi, ga = g(lo), gb = g(hi);
+      if (L1.c == 0 || L2.c == 0) { if (fabsq(lo) > fabsq(hi)) { a_ = lo + din; ga = g(a_); } else { b_ = hi - din; gb = g(b_); } }
+      if ((ga > 0) == (gb > 0)) phi0 = (ga > 0) ? lo : hi;        // k monotonic between the parallels: the minimum is at the end (the pole)
+      else {
+        for (int i = 0; i < 130; ++i) { Q mid = (a_ + b_) / 2, gm = g(mid); if ((gm > 0) == (gb > 0)) { b_ = mid; gb = gm; } else { a_ = mid; ga = gm; } }
+        phi0 = (a_ + b_) / 2;
+      }
     }
     rho0 = rho(latr(phi0));
     if (same && L1.c == 0) rho0 = 0;
+    if (!same && ((L1.c == 0 && phi0 == atan2q(L1.s, L1.c)) || (L2.c == 0 && phi0 == atan2q(L2.s, L2.c)))) rho0 = 0;   // origin at a pole that is a standard parallel: C - n q_p = 0
   }
   Q rho(Lat L) const { Q u = C - n * E.q(L.s); if (u < 0) u = 0; return E.a * sqrtq(u) / n; }   // 14-12 (sign of n carried)
   XY fwd(Lat L, Q lam) const {
